@@ -68,7 +68,12 @@ fn eval(case_id: &str, h: &History, classes: &[&str], rep: &mut Report, args: &A
         eprintln!("calls: {:?}", o.run_calls.iter().map(|c| c.tag()).collect::<Vec<_>>());
     }
     // when every call succeeded and the history was finished, the output must satisfy C01/C02
-    let all_ok = o.start.is_ok() && o.run_calls.len() == h.ops.len() && o.run_calls.iter().all(|c| c.is_ok());
+    // "every call succeeds" is read up to the add_track calls whose preconditions the history
+    // violates on purpose: those must return an error, must leave no trace and must not shift
+    // the ids of the tracks added after them - the oracles run on the calls that were accepted
+    let all_ok = o.start.is_ok()
+        && o.run_calls.len() == h.ops.len()
+        && h.ops.iter().zip(o.run_calls.iter()).all(|(op, c)| c.is_ok() || (matches!(op, Op::Add(t) if add_must_be_rejected(t)) && matches!(c, CallRes::Err { io: false, .. })));
     let finished = matches!(h.ops.last(), Some(Op::End));
     if !failed && all_ok && finished && representable(h) {
         if let Some(out) = &o.out {
